@@ -146,6 +146,11 @@ type cvxAtt struct {
 	RespChunked bool `json:"resp_chunked"`
 }
 
+type cvxEach struct {
+	Path  []string `json:"path"`
+	Query []string `json:"query"`
+}
+
 type cvxCase struct {
 	C    cvxReq  `json:"c"`
 	Up   cvxUp   `json:"up"`
@@ -156,6 +161,8 @@ type cvxCase struct {
 	Answers []cvxLoc `json:"answers,omitempty"`
 	// C08 connection histories: what the upstream must be told about port and host for each request of c.hist
 	Conn []map[string]cvxHdrExp `json:"conn,omitempty"`
+	// C07 simultaneous requests: path and query each request of c.hist must reach the upstream with
+	Each []cvxEach `json:"each,omitempty"`
 
 	parent *cvxCase // set on the per-request copies of a history case
 	step   int
